@@ -1,10 +1,11 @@
 (* C10 — Happy-eyeballs connect succeeds iff some candidate would; first success wins.
-   Statements only; proofs in he/Proofs.v.  Every theorem quantifies over ALL attempt lists
+   Statements only; proofs in he/Proofs.v and he/ProofsPace.v.  Every theorem quantifies over ALL attempt lists
    (any length, any outcomes and latencies), ALL configurations (delay, timeout, concurrency:
    none / zero / any value) and ALL tie-break orders among simultaneous completions. *)
-From HD Require Import common.Base he.Model he.Spec he.Proofs.
+From HD Require Import common.Base he.Model he.Spec he.Proofs he.ProofsPace.
 
-(* the whole C10 monitor (he/Spec.v): soundness of Ok, completeness, error and timeout clauses *)
+(* the whole C10 monitor (he/Spec.v): soundness of Ok, completeness, error, timeout and
+   no-hang (liveness) clauses *)
 Theorem c10_monitor : forall c tb atts, mon_C10 c atts (he_obs c tb atts) = true.
 Proof. exact mon_C10_holds. Qed.
 Check c10_monitor : forall c tb atts, mon_C10 c atts (he_obs c tb atts) = true.
@@ -44,6 +45,14 @@ Proof.
   rewrite E. exact (clause_timeout c atts res td lg HF).
 Qed.
 Print Assumptions c10_timeout.
+
+(* liveness: with a stagger delay configured the operation never hangs while a candidate that
+   was never started would accept (in the model: it never hangs before every candidate has been
+   started) *)
+Theorem c10_no_hang_with_stagger : forall c tb atts, s_hang c atts (he_obs c tb atts) = true.
+Proof. exact s_hang_holds. Qed.
+Check c10_no_hang_with_stagger : forall c tb atts, s_hang c atts (he_obs c tb atts) = true.
+Print Assumptions c10_no_hang_with_stagger.
 
 Theorem c10_total : forall c tb atts, fst (fst (he_obs c tb atts)) <> RFuel.
 Proof. exact he_never_out_of_fuel. Qed.
